@@ -70,6 +70,9 @@ pub enum BOp {
     /// with an attached RETE engine: a fact is inserted / the n-th inserted fact retracted there
     EngineInsert(u8),
     EngineRetract(u8),
+    /// the caller reconfigures the long-lived engine (`set_config`); fresh engines are built with the
+    /// configuration in force at the time of the query
+    SetConfig { strategy: u8, max_solutions: usize, memo: bool, max_depth: Option<usize> },
 }
 
 #[derive(Clone, Debug, Serialize, Deserialize, PartialEq)]
@@ -526,13 +529,19 @@ fn run_search(
     alt_hash_seeds: &[u64],
     obs: &mut Obs,
 ) -> Result<(), Violation> {
-    let site = match strategy % 3 {
-        0 => "BackwardEngine::query (DepthFirst)",
-        1 => "BackwardEngine::query (BreadthFirst)",
-        _ => "BackwardEngine::query (Iterative)",
-    };
-    let cfg = || BackwardConfig { max_depth, strategy: strategy_of(strategy), enable_memoization: memo, max_solutions };
-    let mut engine = BackwardEngine::with_config(build_kb(types, rules), cfg());
+    fn site_of(strategy: u8) -> &'static str {
+        match strategy % 3 {
+            0 => "BackwardEngine::query (DepthFirst)",
+            1 => "BackwardEngine::query (BreadthFirst)",
+            _ => "BackwardEngine::query (Iterative)",
+        }
+    }
+    fn mkcfg(max_depth: usize, strategy: u8, max_solutions: usize, memo: bool) -> BackwardConfig {
+        BackwardConfig { max_depth, strategy: strategy_of(strategy), enable_memoization: memo, max_solutions }
+    }
+    // the configuration in force; `SetConfig` changes it mid-history
+    let (mut max_depth, mut strategy, mut max_solutions, mut memo) = (max_depth, strategy, max_solutions, memo);
+    let mut engine = BackwardEngine::with_config(build_kb(types, rules), mkcfg(max_depth, strategy, max_solutions, memo));
     let rete: Option<Arc<Mutex<IncrementalEngine>>> = if attach_rete { Some(Arc::new(Mutex::new(IncrementalEngine::new()))) } else { None };
     let mut rete_handles: Vec<FactHandle> = Vec::new();
     let mut facts = Facts::new();
@@ -546,7 +555,22 @@ fn run_search(
     }
     let mut asked: BTreeSet<String> = BTreeSet::new();
     for (step, op) in ops.iter().enumerate() {
+        let site = site_of(strategy);
         match op {
+            BOp::SetConfig { strategy: st, max_solutions: ms, memo: me, max_depth: md } => {
+                if md.map_or(false, |d| d != max_depth) {
+                    obs.count("probe.reconfigured_with_another_max_depth");
+                } else {
+                    obs.count("probe.reconfigured_with_the_same_max_depth");
+                }
+                strategy = *st;
+                max_solutions = (*ms).max(1);
+                memo = *me;
+                if let Some(d) = md {
+                    max_depth = *d;
+                }
+                engine.set_config(mkcfg(max_depth, strategy, max_solutions, memo));
+            }
             BOp::SetFact(f, l) => {
                 facts.set(&fkey(*f), lit_value(types[*f as usize % NF], *l));
                 obs.count("probe.caller_changed_a_fact");
@@ -628,7 +652,7 @@ fn run_search(
                 judge(prop, site, types, rules, goal, &before, &out, max_depth, strategy, max_solutions, step, obs, "long-lived engine", )?;
                 // a freshly built engine on a deep copy of the facts as they stood
                 let fresh_here = {
-                    let mut e2 = BackwardEngine::with_config(build_kb(types, rules), cfg());
+                    let mut e2 = BackwardEngine::with_config(build_kb(types, rules), mkcfg(max_depth, strategy, max_solutions, memo));
                     let mut f2 = facts_from(&before);
                     let rete2: Option<Arc<Mutex<IncrementalEngine>>> = if attach_rete { Some(Arc::new(Mutex::new(IncrementalEngine::new()))) } else { None };
                     match run_query(&mut e2, &gt, &mut f2, &rete2) {
@@ -651,7 +675,7 @@ fn run_search(
                 // fresh engines under further hash seeds
                 let mut verdicts: Vec<(u64, bool)> = Vec::new();
                 for hs in alt_hash_seeds {
-                    let (types2, rules2, before2, gt2, cfg2) = (types.to_vec(), rules.to_vec(), before.clone(), gt.clone(), cfg());
+                    let (types2, rules2, before2, gt2, cfg2) = (types.to_vec(), rules.to_vec(), before.clone(), gt.clone(), mkcfg(max_depth, strategy, max_solutions, memo));
                     let r = hashseed::on_seeded_thread(*hs, move || {
                         let mut e3 = BackwardEngine::with_config(build_kb(&types2, &rules2), cfg2);
                         let mut f3 = facts_from(&before2);
@@ -860,7 +884,7 @@ fn gen_search(rng: &mut Rng, hash_seed: u64, with_negation: bool) -> BwdTrace {
     let nops = 1 + rng.usize(6);
     let mut ops = Vec::new();
     for _ in 0..nops {
-        let w = rng.weighted(&[55, 20, 5, 5, if attach_rete { 8 } else { 0 }, if attach_rete { 6 } else { 0 }, if with_negation { 8 } else { 0 }]);
+        let w = rng.weighted(&[55, 20, 5, 5, if attach_rete { 8 } else { 0 }, if attach_rete { 6 } else { 0 }, if with_negation { 8 } else { 0 }, 6]);
         ops.push(match w {
             0 => {
                 if with_negation && rng.chance(1, 4) {
@@ -874,7 +898,8 @@ fn gen_search(rng: &mut Rng, hash_seed: u64, with_negation: bool) -> BwdTrace {
             3 => BOp::AssertAux(rng.below(3) as u8),
             4 => BOp::EngineInsert(rng.below(3) as u8),
             5 => BOp::EngineRetract(rng.below(4) as u8),
-            _ => BOp::Retype(rng.below(NF as u64) as u8),
+            6 => BOp::Retype(rng.below(NF as u64) as u8),
+            _ => BOp::SetConfig { strategy: *rng.pick(&[0u8, 0, 1, 2]), max_solutions: *rng.pick(&[1usize, 1, 3]), memo: rng.chance(2, 3), max_depth: if rng.chance(1, 3) { Some(*rng.pick(&[0usize, 1, 2, 3, 4])) } else { None } },
         });
     }
     ops.push(BOp::Query(rng.below(3) as u8));
@@ -900,7 +925,7 @@ impl World for BwdWorld {
         "bwd"
     }
     fn info(&self, prop: &str) -> WorldInfo {
-        let mut probes = vec!["fault.rule_action_errors_midway", "probe.alt_hash_seed_query", "probe.returned_facts_differ_between_hash_seeds", "probe.history_of_two_or_more_queries", "probe.caller_changed_a_fact", "probe.same_query_asked_again", "probe.retraction_in_attached_engine"];
+        let mut probes = vec!["fault.rule_action_errors_midway", "probe.reconfigured_with_the_same_max_depth", "probe.reconfigured_with_another_max_depth", "probe.alt_hash_seed_query", "probe.returned_facts_differ_between_hash_seeds", "probe.history_of_two_or_more_queries", "probe.caller_changed_a_fact", "probe.same_query_asked_again", "probe.retraction_in_attached_engine"];
         match prop {
             "C09" => probes.extend(["probe.provable_query", "probe.complete_clause_applicable", "probe.derivation_of_height_2_or_more", "probe.derivation_deeper_than_max_depth"]),
             "C10" => probes.extend(["probe.unprovable_query", "probe.failed_query_with_derivable_intermediate_facts", "probe.nested_frame_committed", "probe.frame_rolled_back", "probe.flat_dotted_key_written"]),
